@@ -25,6 +25,7 @@ type PropConfig struct {
 	Assumptions []string `json:"assumptions"` // reported in evidence
 	Bounded     []string `json:"bounded"`     // labels of bounded stand-ins (reported, never counted as proved)
 	Frames      []FrameCheck `json:"frames"`  // program-wide syntactic frame obligations
+	ThoroughVerify []string `json:"thorough_verify"` // functions under contract that are too expensive for the quick tier
 	Slow        []string `json:"slow_functions"` // functions whose obligations get 5x the solver budget (baseline and check alike)
 }
 
@@ -153,6 +154,14 @@ func cmdCheck(args []string) {
 			jobs = append(jobs, job{k, "verify"})
 		}
 	}
+	if *tier == "thorough" {
+		for _, k := range cfg.ThoroughVerify {
+			if P.funcs[k] != nil && !seen[k] {
+				seen[k] = true
+				jobs = append(jobs, job{k, "verify"})
+			}
+		}
+	}
 	var keys []string
 	for k := range P.funcs {
 		keys = append(keys, k)
@@ -257,6 +266,9 @@ func cmdCheck(args []string) {
 		// last resort on a badly overloaded machine: one more attempt, strictly one obligation at a time, within a
 		// total budget of 15 minutes
 		tRetry := time.Now()
+		if os.Getenv("VC_NO_LAST_RESORT") != "" {
+			tRetry = tRetry.Add(-time.Hour) // corpus runs over seeded changes: an undecided obligation is already the verdict
+		}
 		for _, r := range results {
 			if r == nil || r.err != nil || r.vc == nil {
 				continue
